@@ -51,3 +51,18 @@ pub fn draws() -> u64 {
         None => 0,
     }
 }
+
+/// Call once at process start, before the first `set`: forces the hash keys of the calling thread and of the
+/// global rayon pool thread(s) to be drawn now, from real entropy, so that no run's seeded stream is ever
+/// consumed by a thread that outlives the run (which would make a run depend on its position in the batch).
+pub fn settle_long_lived_threads() {
+    unset();
+    let m: std::collections::HashMap<u8, u8> = std::collections::HashMap::new();
+    std::hint::black_box(&m);
+    let n = rayon::current_num_threads();
+    rayon::broadcast(|_| {
+        let s: std::collections::HashSet<u8> = std::collections::HashSet::new();
+        std::hint::black_box(&s);
+    });
+    std::hint::black_box(n);
+}
